@@ -97,6 +97,15 @@ ACTIONS = {
     'k2': ['I send event go', 'I send event set with amount=2', 'I send event set with amount=5',
            'I wait 2 seconds', 'I do nothing', 'I repeat "I send event go" 2 times'],
 }
+# library scenarios that 'I reproduce "<name>"' replays (their own then-less run is part of the feature)
+LIBRARY = {
+    'k1': {'prep1': [('given', 'I send event go'), ('when', 'I send event back')],
+           'prep2': [('when', 'I send event go'), ('when', 'I wait 3 seconds')],
+           'prep3': [('given', 'I send event go')]},
+    'k2': {'prep1': [('given', 'I send event set with amount=2'), ('when', 'I send event go')],
+           'prep2': [('when', 'I send event go'), ('when', 'I send event go')],
+           'prep3': [('given', 'I send event go')]},
+}
 THENS = {
     'k1': {'states': ['root', 'a', 'b', 'f'], 'events': ['out', 'timeout', 'nope'],
            'event_params': [('out', 'v', '1'), ('out', 'v', '2'), ('out', 'w', '1'), ('timeout', 'v', '1')],
@@ -159,12 +168,18 @@ def then_text(t):
 # ------------------------------------------------------------------------------------ oracle
 class Oracle:
     def __init__(self, k):
+        self.k = k
         self.it = Interpreter(chart(k))
         self.monitored = None
         self.monitoring = False
 
     def act(self, keyword, text):
         """perform one given/when step"""
+        if text.startswith('I reproduce "'):
+            for _, inner in LIBRARY[self.k][text.split('"')[1]]:
+                self.act(keyword, inner)        # replayed with the keyword of the reproducing step
+            self._after(keyword)
+            return
         if text.startswith('I repeat "'):
             inner = text.split('"')[1]
             n = int(text.rsplit(' ', 2)[1])
@@ -283,6 +298,13 @@ def scenarios(k, tier):
             for t in thens:
                 if t[0] in ('state', 'event', 'eventp', 'noevent'):
                     out.append([('when', a), ('given', g), ('then', t)])
+    # reproduce: the given/when steps of a library scenario replayed as given, resp. as when
+    for p in LIBRARY[k]:
+        for t in thens:
+            if t[0] in ('state', 'event', 'eventp', 'noevent', 'var', 'final'):
+                out.append([('when', 'I reproduce "%s"' % p), ('then', t)])
+                for a in acts[:3]:
+                    out.append([('given', 'I reproduce "%s"' % p), ('when', a), ('then', t)])
     return out
 
 
@@ -317,6 +339,11 @@ def work(task):
     res = {'evaluations': 0, 'outcomes': collections.Counter(), 'found': [], 'nviol': 0, 'true': 0, 'false': 0}
     exp = []
     lines = ['Feature: generated %s %d' % (k, idx), '']
+    for name, steps in LIBRARY[k].items():
+        lines.append('  Scenario: %s' % name)
+        for kw, text in steps:
+            lines.append('    %s %s' % (kw.capitalize(), text))
+        lines.append('')
     for i, sc in enumerate(scs):
         steps, problems = expected(k, sc)
         exp.append(steps)
